@@ -75,3 +75,34 @@ def narrowing_casts(body):
             if fty in INT_BITS and tty in INT_BITS and INT_BITS[tty] < INT_BITS[fty]:
                 out.append((s, fty, tty))
     return out
+
+
+import re as _re
+
+PANIC_CALLS = _re.compile(r'ops::Index>::index$|ops::IndexMut>::index_mut$|Option::unwrap$|Option::expect$|Result::unwrap$|Result::expect$|'
+                          r'panicking::|slice::index::|str::slice_error|Result::unwrap_err$|Option::unwrap_unchecked$|RefCell.*::borrow')
+
+
+def panic_sites(body, blocks=None):
+    """explicit panic sites among the given blocks (default: all reachable): [(term, description)]"""
+    out = []
+    for b in body.blocks:
+        if b.cleanup or b.idx not in body.reachable:
+            continue
+        if blocks is not None and b.idx not in blocks:
+            continue
+        t = b.term
+        if t.kind == 'assert':
+            out.append((t, 'assert ' + t.msg['k'] + (':' + t.msg.get('op', '') if 'op' in t.msg else '')))
+        elif t.kind == 'call':
+            n = t.callee_res() or ''
+            if PANIC_CALLS.search(n):
+                out.append((t, 'call ' + n))
+    return out
+
+
+def dominated_by_edge(body, edge):
+    """blocks reachable only through the CFG edge (u, v)"""
+    from analysis import cfg
+    rest = cfg.reach(body, 0, removed_edges=[edge])
+    return {b for b in body.reachable if b not in rest}
